@@ -136,6 +136,47 @@ def measured_leg(ck, tb):
         else:
             ck.cov['traces_validated_against_impl'] += 1
             ck.nontrivial(('measured', c['id']))
+    # the brand on NIST curves holds for what is measured as well: a host certificate signed by an ECDSA (NIST P-curve) CA is shown with a
+    # failure whatever the sizes of its own key and of the CA key
+    certs = []
+    for kind, bits, name in (('ed25519', 256, 'ssh-ed25519-cert-v01@openssh.com'), ('rsa', 3072, 'ssh-rsa-cert-v01@openssh.com'), ('rsa', 4096, 'ssh-rsa-cert-v01@openssh.com')):
+        for curve in (256, 384, 521):
+            cfg = peers.ServerCfg(banner=b'SSH-2.0-OpenSSH_9.9', kexinit={'kex': ['curve25519-sha256'], 'key': [name, 'ssh-ed25519'], 'enc': ['aes256-ctr'], 'mac': ['hmac-sha2-256'],
+                                                                         'comp': ['none']},
+                                  hostkeys={name: peers.cert_blob(kind, ('ecdsa', curve), bits=bits, name=name.encode()), 'ssh-ed25519': peers.ed25519_blob()})
+            certs.append((name, curve, {'argv': ['-j', '--skip-rate-test', rating.HOST], 'servers': {(rating.HOST, 22): cfg}}))
+    for (name, curve, sc), r in zip(certs, runner.run_many([x[2] for x in certs])):
+        ck.evaluated()
+        if r.get('harness_error') or r.get('hang') or r.get('exit') not in (0, 2, 3):
+            raise common.Machinery('audit of a certificate peer failed: exit %r' % r.get('exit'))
+        ent = [a for a in json.loads(r['stdout']).get('key', []) if a.get('algorithm') == name]
+        if len(ent) != 1 or not str(ent[0].get('ca_algorithm', '')).startswith('ecdsa-sha2-nistp'):
+            # (how certificates are measured is C11's subject; nothing is decided here about a certificate the tool did not read as one signed by an ECDSA CA)
+            ck.log('measured leg: %s / P-%d not measured as signed by an ECDSA CA: %r' % (name, curve, ent))
+            continue
+        if not (ent[0].get('notes') or {}).get('fail'):
+            ck.violation('nist-ca-shown-without-failure', '%s signed by a NIST P-%d CA (key and CA of good size) is shown without any failure; the tables brand NIST curves as a failure everywhere'
+                         % (name, curve), {'argv': sc['argv'], 'exit': r['exit'], 'stdout': r['stdout'][-2500:]})
+        else:
+            ck.cov['traces_validated_against_impl'] += 1
+            ck.nontrivial(('nist-ca', name, curve))
+    # SSH-1: every name an SSH-1 report shows for a cipher / authentication mask is a name of the SSH-1 rating table (all mask bits set,
+    # the unassigned ones too)
+    db1 = tb['db1']
+    for cm, am in ((0x7f, 0x7f), (0xff, 0xff), (0x48, 0x01), (0x01, 0x0d)):
+        cfg = peers.ServerCfg(banner=b'SSH-1.5-OpenSSH_1.2.3', ssh1={'cmask': cm, 'amask': am})
+        r = runner.run_one({'argv': ['-j', '-1', rating.HOST], 'servers': {(rating.HOST, 22): cfg}})
+        ck.evaluated()
+        if r.get('harness_error') or r.get('hang') or r.get('exit') not in (0, 2, 3):
+            raise common.Machinery('SSH-1 audit failed: exit %r' % r.get('exit'))
+        doc = json.loads(r['stdout'])
+        strangers = ['enc:%s' % n for n in doc.get('enc', []) if n not in db1['enc']] + ['aut:%s' % n for n in doc.get('aut', []) if n not in db1['aut']]
+        if strangers:
+            ck.violation('ssh1-report-names-unknown-to-table', 'an SSH-1 report (cipher mask %#x, authentication mask %#x) shows %r, which the SSH-1 rating table does not know' % (cm, am, strangers),
+                         {'cmask': cm, 'amask': am, 'stdout': r['stdout'][-1500:]})
+        else:
+            ck.cov['traces_validated_against_impl'] += 1
+            ck.nontrivial(('ssh1-names', cm, am))
 
 
 def witness(inv, tb):
